@@ -67,6 +67,14 @@ type prepared struct {
 	run       func(cl *s3c.Client) *s3c.Resp
 	isDirKey  bool
 	part      *partExpect
+	mpu       *mpuExpect
+}
+
+// mpuExpect: a CompleteMultipartUpload whose parts were acknowledged before the crash.
+type mpuExpect struct {
+	key, id string
+	parts   []s3c.Part
+	newWid  int
 }
 
 type partExpect struct {
@@ -256,6 +264,7 @@ func (l *lane) prepare(op string, cl *s3c.Client) (*prepared, error) {
 		p.uploads[id] = key
 		etag := strings.Trim(r1.Header.Get("Etag"), `"`)
 		p.keys = append(p.keys, kexpect{key, old, kstate{Wid: bw.ID, Tags: bTags}})
+		p.mpu = &mpuExpect{key: key, id: id, parts: []s3c.Part{{N: 1, ETag: etag}}, newWid: bw.ID}
 		p.run = func(c *s3c.Client) *s3c.Resp { return c.CompleteMPU(b, key, id, []s3c.Part{{N: 1, ETag: etag}}) }
 	case "DELETE", "DELETE-nested":
 		if op == "DELETE-nested" {
@@ -557,6 +566,39 @@ func (l *lane) judge(id, op, point string, j int, p *prepared, cl *s3c.Client, a
 		}
 	} else {
 		viol("list-uploads-fails", ur.String())
+	}
+	// multipart completion that did not take effect: the parts acknowledged before the crash must still be
+	// there and the completion must be repeatable
+	if me := p.mpu; me != nil {
+		if g := l.ws.Judge(cl.GetObject(b, me.key), false); g.Wid != me.newWid {
+			lp := cl.Do(&s3c.Req{Method: "GET", Path: s3c.ObjPath(b, me.key), Query: s3c.Q("uploadId", me.id)})
+			if !lp.OK() {
+				viol("acknowledged-parts-lost", "ListParts of the interrupted upload: "+lp.String())
+			} else {
+				var pl struct {
+					Part []struct {
+						PartNumber int
+						ETag       string
+					}
+				}
+				xml.Unmarshal(lp.Body, &pl)
+				have := map[int]string{}
+				for _, x := range pl.Part {
+					have[x.PartNumber] = strings.Trim(x.ETag, `"`)
+				}
+				for _, want := range me.parts {
+					if have[want.N] != want.ETag {
+						viol("acknowledged-parts-lost", fmt.Sprintf("part %d acknowledged with ETag %s before the crash, listed now: %q", want.N, want.ETag, have[want.N]))
+					}
+				}
+			}
+			cr := cl.CompleteMPU(b, me.key, me.id, me.parts)
+			if !cr.OK() {
+				viol("interrupted-completion-not-repeatable", "retried CompleteMultipartUpload: "+cr.String())
+			} else if g2 := l.ws.Judge(cl.GetObject(b, me.key), false); g2.Wid != me.newWid {
+				viol("interrupted-completion-not-repeatable", fmt.Sprintf("retried completion acknowledged but the key holds write %d %s", g2.Wid, g2.Torn))
+			}
+		}
 	}
 	// part operation: part old or new, upload still completes
 	if pe := p.part; pe != nil {
